@@ -564,7 +564,7 @@ impl<T: Modeled> Modeled for RangeInclusive<T> {
 	}
 }
 
-#[cfg(feature = "full")]
+#[cfg(feature = "bitvec-f")]
 mod integrations {
 	use super::*;
 	use bitvec::prelude::*;
@@ -676,6 +676,11 @@ mod integrations {
 		}
 	}
 
+}
+
+#[cfg(feature = "bytes-f")]
+mod bytes_integration {
+	use super::*;
 	impl Modeled for bytes::Bytes {
 		fn ty(d: usize) -> String {
 			"bytes".into()
@@ -693,6 +698,11 @@ mod integrations {
 		}
 	}
 
+}
+
+#[cfg(feature = "garray-f")]
+mod garray_integration {
+	use super::*;
 	impl<T: Modeled, L: generic_array::ArrayLength<T>> Modeled for generic_array::GenericArray<T, L> {
 		fn ty(d: usize) -> String {
 			format!("garr {} {}", L::to_usize(), T::ty(d))
@@ -708,6 +718,6 @@ mod integrations {
 		}
 	}
 }
-#[cfg(feature = "full")]
+#[cfg(feature = "bitvec-f")]
 #[allow(unused_imports)]
 pub use integrations::*;
